@@ -633,6 +633,22 @@ func c12HistSweep(levels int, emit func(C12Case)) {
 			{"full -> other full", full, c12Full(ty.md, 3, 5)},
 			{"other full -> full", c12Full(ty.md, 3, 5), full},
 		}
+		// one field alone: set, cleared, changed in place
+		one, other := c12Full(ty.md, 1, 0), c12Full(ty.md, 1, 3)
+		for i := range one.F {
+			a, b := &C12Msg{F: []C12Fld{one.F[i]}}, &C12Msg{F: []C12Fld{other.F[i]}}
+			nm := one.F[i].Name
+			pairs = append(pairs, struct {
+				label    string
+				from, to *C12Msg
+			}{nm + " -> {}", a, &C12Msg{}}, struct {
+				label    string
+				from, to *C12Msg
+			}{"{} -> " + nm, &C12Msg{}, a}, struct {
+				label    string
+				from, to *C12Msg
+			}{nm + " -> other " + nm, a, b})
+		}
 		for _, r := range c12Removals(ty.md, full, levels) {
 			pairs = append(pairs, struct {
 				label    string
